@@ -49,8 +49,8 @@ func loadKnown() (kf []knownFinding) {
 // obligations filed under that one (the DNS answer is only right if Match,
 // the precedence rules and $badfilter handling are).
 var propDeps = map[string][]string{
-	"C02": {"C04", "C06", "C07", "C08"},
-	"C01": {"C04"},
+	"C02": {"C04", "C06", "C07", "C08", "C11"},
+	"C01": {"C04", "C11"},
 	"C19": {"C04"},
 }
 
